@@ -1658,8 +1658,16 @@ static const uint8_t *unmarshal_one(
             data += sizeof(void *);
 
             if (flags & JANET_MARSHAL_DECREF) {
-                /* Decrement immediately and don't bother putting into heap */
-                janet_abstract_decref(u.ptr);
+                /* Decrement immediately and don't bother putting into heap. If this was
+                 * the last reference, the abstract must be released here - it is in no
+                 * thread's table anymore, so no collector would ever finalize it. */
+                if (0 == janet_abstract_decref(u.ptr)) {
+                    JanetAbstractHead *head = janet_abstract_head(u.ptr);
+                    if (head->type->gc) {
+                        janet_assert(!head->type->gc(head->data, head->size), "finalizer failed");
+                    }
+                    janet_free(head);
+                }
                 *out = janet_wrap_nil();
             } else {
                 *out = janet_wrap_abstract(u.ptr);
